@@ -127,6 +127,14 @@ Definition supports (G : graph) (S : list N) : bool :=
             (combos (map sets trees))
   end.
 
+(* ---- STEPcomplex::Initialize(): a single part is accepted when the entity stands on its own (it is not abstract
+   and has no supertype); the supertype lists are asked about two and more parts ---- *)
+Definition accepted (G : graph) (S : list N) : bool :=
+  match S with
+  | [e] => match supers G e with [] => negb (abstract G e) | _ => false end
+  | _ => supports G S
+  end.
+
 (* ---- the declarative rule (the property's three clauses) ---- *)
 Fixpoint dsets (x : sx) : list (list N) :=
   match x with
